@@ -346,6 +346,7 @@ def main():
     D.append('def cliResourceNames : List Str := [' + ', '.join(L(k) for k in sorted(mods['rimuc'].resources)) + ']')
     D.append('def maxExpansionDepth : Nat := %d' % int(lb.MAX_EXPANSION_DEPTH))
     D.append('def maxContainerDepth : Nat := %d' % int(db.MAX_CONTAINER_DEPTH))
+    D.append('def maxQuoteDepth : Nat := %d' % int(mods['rimu.spans'].MAX_QUOTE_DEPTH))
 
     # quote regex template: run the real synthesis with a sentinel quote
     saved = list(quotes.defs)
